@@ -274,6 +274,9 @@ class AbstractTAP(AbstractScriptedAgent):
         :type timestep: int
         :rtype bool
         """
+        if timestep >= len(self.history):
+            # nothing has been requested yet (the first execution falls on the very first step): nothing can have failed
+            return True
         if self.history[timestep].response.status != "success":
             self.logger.info(
                 f"{self.config.ref} has failed to successfully carry out {self.current_kill_chain_stage.name}"
